@@ -1881,8 +1881,9 @@ func (c *Compiler) identityValues(cfgNode, node parse.Node, ident parse.Node, rt
 			rname, id.Desc(), id.Ref(),
 			c.getStatus(id, schema.Current), id.Name())
 		rt = append(rt, i)
-		n, _ := c.identities[nm]
-		rt = c.identityValues(cfgNode, node, n, rt)
+		if n, ok := c.identities[nm]; ok && n != nil {
+			rt = c.identityValues(cfgNode, node, n, rt)
+		}
 	}
 	return rt
 }
@@ -1904,7 +1905,13 @@ func (c *Compiler) getIdentities(cfgNode parse.Node, i schema.Identityref, node 
 	mod := node.Root()
 	tm, ident := c.getModuleAndReference(mod, baseStmnt, parse.NodeIdentity)
 
-	idid, _ := c.identities[tm.Name()+":"+ident.Name()]
+	idid, ok := c.identities[tm.Name()+":"+ident.Name()]
+	if !ok || idid == nil {
+		// (an identity that was found by name but is not registered, for
+		// instance one defined in a submodule)
+		c.error(node, fmt.Errorf("identity not valid: %s",
+			baseStmnt.Argument().String()))
+	}
 
 	idents := make([]*schema.Identity, 0, 0)
 
